@@ -17,6 +17,7 @@
 -/
 import Lcapy.Proofs.Formulations
 import Lcapy.Proofs.Realisations
+import Lcapy.Proofs.StateExists
 import Mathlib.Tactic.NormNum
 namespace Lcapy.C15
 open Lcapy.MNA Lcapy.Formulations Lcapy.StateSpace Ix
@@ -25,7 +26,8 @@ variable {K : Type} [Field K]
 /-! ## nodal analysis -/
 
 /-- the nodal formulation is defined for the netlist: one-ports R, Y, C, L, V, I only (the code
-    raises for dependent sources and two-ports), no shorted component, inductors with
+    raises for dependent sources and two-ports), no shorted component, resistors with R ≠ 0 (the code prints `zoo`
+    for a 0-ohm resistor; the harness covers that branch), inductors with
     finite admittance 1/(sL) (so not in DC, where the code prints `zoo`) and UNCOUPLED: the code does not refuse
     K lines, it ignores them (finding C15-k, known) -- that region is excluded here and covered by the oracle. -/
 def NodalDefined (kind : Kind) (s : K) (cs : List (Cpt K)) : Prop := ∀ c ∈ cs, OkCpt kind s c
@@ -170,11 +172,10 @@ example : ∀ e ∈ buildGraph exCkt, ∃ n, e.b = GNode.real n := by
 
 /-! ## canonical state-space realisations of a transfer function (continuous and discrete time) -/
 
-/-- **ss_transfer**: for ANY state-space model (A, B, C, D) of any order, at a point s that is not a
-    natural frequency the Laplace-domain state equation (sI − A)X = B·U has at most one solution,
-    so the output of every solution is the one obtained from H = (sI − A)⁻¹B that `StateSpace.G`
-    uses:  Y/U = C (sI − A)⁻¹ B + D  is well defined and is what the state and output equations imply. -/
-theorem ss_transfer (sys : SS K) (s : K) (hns : ¬ IsNaturalFreq sys s) (X H : Nat → K)
+/-- **ss_output_unique**: for ANY state-space model (A, B, C, D) of any order, at a point s that is not a
+    natural frequency the Laplace-domain state equation (sI − A)X = B·U has at most one solution (inside the order),
+    so all solutions have the same output. -/
+theorem ss_output_unique (sys : SS K) (s : K) (hns : ¬ IsNaturalFreq sys s) (X H : Nat → K)
     (hX : StateEq sys s X) (hH : StateEq sys s H) : output sys X = output sys H := by
   have hz : ∀ i, i < sys.n → X i = H i := by
     intro i hi
@@ -195,6 +196,17 @@ theorem ss_transfer (sys : SS K) (s : K) (hns : ¬ IsNaturalFreq sys s) (X H : N
   apply sumTo_congr
   intro j hj
   rw [hz j hj]
+
+/-- **ss_transfer**: for ANY state-space model (A, B, C, D) of any order and any point s that is not a natural
+    frequency (not an eigenvalue of A), the transfer function value  G(s) = C (sI − A)⁻¹ B + D  is well defined without
+    mentioning an inverse: the state equation (sI − A)X = B has a solution (an injective endomorphism of Kⁿ is
+    surjective), and there is ONE value g that the output  C·X + D  takes at every solution.  `Realises`, `ccf_realises`,
+    `ocf_realises` identify this g with b(s)/a(s) for the canonical forms; `C15SS.ss_from_circuit` ties the matrices of
+    a circuit to its laws. -/
+theorem ss_transfer (sys : SS K) (s : K) (hns : ¬ IsNaturalFreq sys s) :
+    ∃ g, (∃ X, StateEq sys s X) ∧ ∀ X, StateEq sys s X → output sys X = g := by
+  obtain ⟨H, hH⟩ := state_exists sys s hns
+  exact ⟨output sys H, ⟨H, hH⟩, fun X hX => ss_output_unique sys s hns X H hX hH⟩
 
 /-- **ccf_realises**: for coefficient lists of ANY degree, the controllable canonical form that
     `from_ba_CCF` builds (after its normalisation by a₀ and zero padding of b) has the transfer
@@ -312,11 +324,13 @@ theorem ocf_realises (b a : List K) (h : ProperTF b a) : ∃ sys, ocf b a = some
     field_simp at hy
     linear_combination hy
 
-/-- **dcf_transfer**: the diagonal form A = diag(p), B = ones, C = r, D = d has the transfer
-    function d + Σ rᵢ/(s − pᵢ) at every s that is not a pole -- so it realises b/a exactly when the
-    poles and residues handed in are a partial-fraction expansion of b/a (checked by the oracle;
-    the oracle checks that on every case; findings C15-e/C15-j, fixed). -/
-theorem dcf_transfer (b a poles residues : List K) (s : K)
+/-- **dcf_transfer_partial**: the diagonal form A = diag(p), B = ones, C = r, D = d has the transfer
+    function d + Σ rᵢ/(s − pᵢ) at every s that is not a pole.  PARTIAL: the poles and residues are INPUTS (SymPy's root
+    finding and `Ratfun.residue` are not modelled), one per state (`hp`, `hr`: a shorter list would read as poles at 0);
+    that they are a partial-fraction expansion of b/a is the hypothesis of `dcf_realises_of_pf` below and is checked by the
+    oracle on every case (findings C15-e/C15-j, fixed). -/
+theorem dcf_transfer_partial (b a poles residues : List K) (s : K)
+    (_hp : poles.length = a.length - 1) (_hr : residues.length = a.length - 1)
     (hs : ∀ i, i < a.length - 1 → s - coef poles i ≠ 0) (X : Nat → K)
     (hX : StateEq (dcfOf b a poles residues) s X) :
     output (dcfOf b a poles residues) X =
@@ -342,6 +356,40 @@ theorem dcf_transfer (b a poles residues : List K) (s : K)
     rw [eq_div_iff (hs i hi)]; linear_combination h
   simp only [dcfOf]
   rw [hXi]; ring
+
+/-- **dcf_realises_of_pf**: IF the poles and residues handed to the diagonal form are a partial-fraction expansion of
+    b/a -- every root-free point of a is no pole (`hpoles`) and there b(s)/a(s) = D + Σ rᵢ/(s − pᵢ) (`hpf`) -- THEN the
+    diagonal form realises b/a in the sense of the Spec (`Realises`: the state equation is solvable and every solution
+    gives b(s)/a(s)).  The two hypotheses are what the oracle evaluates on Lcapy's own poles and residues. -/
+theorem dcf_realises_of_pf (b a poles residues : List K)
+    (hp : poles.length = a.length - 1) (hr : residues.length = a.length - 1)
+    (hpoles : ∀ s, polyEval a s ≠ 0 → ∀ i, i < a.length - 1 → s - coef poles i ≠ 0)
+    (hpf : ∀ s, polyEval a s ≠ 0 → polyEval b s / polyEval a s =
+      sumTo (a.length - 1) (fun i => coef residues i / (s - coef poles i)) + (dcfOf b a poles residues).D) :
+    Realises (dcfOf b a poles residues) b a := by
+  intro s hs
+  have hne := hpoles s hs
+  constructor
+  · refine ⟨fun i => 1 / (s - coef poles i), ?_⟩
+    intro i hi
+    have hn : (dcfOf b a poles residues).n = a.length - 1 := rfl
+    rw [hn] at hi
+    simp only [stateRow, hn]
+    have hA : ∀ j, (dcfOf b a poles residues).A i j * (1 / (s - coef poles j)) =
+        if j = i then coef poles i * (1 / (s - coef poles i)) else 0 := by
+      intro j; simp only [dcfOf]
+      by_cases hji : j = i
+      · subst hji; simp
+      · have : ¬ (i = j) := fun h => hji h.symm
+        simp [hji, this]
+    rw [sumTo_congr _ _ _ (fun j _ => hA j), sumTo_single, if_pos hi]
+    have hB : (dcfOf b a poles residues).B i = 1 := rfl
+    rw [hB]
+    have := hne i hi
+    field_simp
+  · intro X hX
+    rw [dcf_transfer_partial b a poles residues s hp hr hne X hX, ← hpf s hs]
+    field_simp
 
 /-- non-vacuity: (3s² + 2s + 5)/(2s³ + 4s² + 7s + 1) is a proper transfer function -/
 example : ProperTF ([3, 2, 5] : List ℚ) [2, 4, 7, 1] := by
